@@ -69,6 +69,8 @@ vars == <<nev, ev, q, unf, shut, hist, running, idle, semv, depth, lockq, task, 
 
 \* re-dispatching existing events is opt-in per configuration (field `redispatch` of Cfg; trace validation turns it on)
 WithRedispatch == "redispatch" \in DOMAIN Cfg /\ Cfg.redispatch
+\* so is stop(timeout > 0) of a driver (field `stopt`)
+WithTimedStop == "stopt" \in DOMAIN Cfg /\ Cfg.stopt
 NoTask == <<"none", "">>
 RL(b) == <<"rl", b>>
 HT(a) == <<"h", a>>
@@ -828,8 +830,15 @@ HFinish(a, out) ==  \* return / raise: the handler task ends, its owner is woken
 \* stop() called from inside a handler (A.11): same steps as a driver's stop(); when the bus is the handler's own, the run loop that is
 \* cancelled after the bounded wait is waiting for this very handler, so the cancellation comes back to the caller (pending until its
 \* next suspension).  The caller id of the StopB / StopE lines is 1000 + activation.
+\* stop(timeout > 0) of a driver (DStopBeginT below) first runs wait_until_idle(timeout).  The model has no variable for the bus's reference
+\* to its run-loop task (dropped by the first stop() that finishes), which only matters when stop() calls on one bus overlap and one of
+\* them is timed: those overlaps are left out (an under-approximation, stated in DESIGN.md 12.3)
+TimedStopOn(b) == \E j \in 1..NDrv : task[DT(j)].h = "stop" /\ task[DT(j)].b = b
+AnyStopOn(b) == \/ TimedStopOn(b)
+                \/ \E j \in 1..NDrv : task[DT(j)].pc \in {"stop_go", "stop_wait"} /\ task[DT(j)].b = b
+                \/ \E a \in 1..MaxAct : task[HT(a)].pc \in {"hstop_go", "hstop_wait"} /\ task[HT(a)].fh = b
 HStopBegin(a, b) ==
-  /\ WithStop /\ InOps(a) /\ task[HT(a)].bud > 0
+  /\ WithStop /\ InOps(a) /\ task[HT(a)].bud > 0 /\ ~TimedStopOn(b)
   /\ task' = [task EXCEPT ![HT(a)].bud = @ - 1, ![HT(a)].pc = "hstop_go", ![HT(a)].fh = b]
   /\ o' = Obs(Line("StopB") @@ [d |-> 1000 + a, b |-> b, tmo |-> -1, running |-> running[b]], ev, nev, hist, q)
   /\ UNCHANGED <<nev, ev, q, unf, shut, hist, running, idle, semv, depth, lockq, nact, nx, xh, cur>>
@@ -917,20 +926,29 @@ DIdleFlag(i) ==
   /\ UNCHANGED <<nev, ev, q, unf, shut, hist, running, idle, semv, depth, lockq, nact, nx, xh, cur, o>>
 DIdleTimeout(i) ==   \* the timeout of a timed wait_until_idle() expires in any of its waiting phases
   /\ cur = NoTask /\ task[DT(i)].tout /\ task[DT(i)].pc \in {"idle_join", "idle_flag"}
-  /\ task' = [task EXCEPT ![DT(i)].pc = "run", ![DT(i)].b = "", ![DT(i)].tout = FALSE]
-  /\ o' = Obs(Line("IdleE") @@ [d |-> i, b |-> task[DT(i)].b, exc |-> "", qn |-> Len(q[task[DT(i)].b])], ev, nev, hist, q)
-  /\ UNCHANGED <<nev, ev, q, unf, shut, hist, running, idle, semv, depth, lockq, nact, nx, xh, cur>>
+  /\ IF task[DT(i)].h = "stop"       \* inside stop(timeout > 0): the same stretch goes on with the shutdown
+     THEN /\ task' = [task EXCEPT ![DT(i)].pc = "stop_body", ![DT(i)].tout = FALSE]
+          /\ cur' = DT(i) /\ o' = o
+     ELSE /\ task' = [task EXCEPT ![DT(i)].pc = "run", ![DT(i)].b = "", ![DT(i)].tout = FALSE]
+          /\ cur' = cur
+          /\ o' = Obs(Line("IdleE") @@ [d |-> i, b |-> task[DT(i)].b, exc |-> "", qn |-> Len(q[task[DT(i)].b])], ev, nev, hist, q)
+  /\ UNCHANGED <<nev, ev, q, unf, shut, hist, running, idle, semv, depth, lockq, nact, nx, xh>>
 DIdleRecheck(i) ==
   /\ cur = NoTask /\ task[DT(i)].pc = "idle_yield"
   /\ LET b == task[DT(i)].b IN
      IF ~idle[b] \/ (\E x \in Range(hist[b]) : Status(ev[x]) \in {"pending", "started"}) \/ q[b] # <<>>     \* (fix: G5 adds the queue test)
      THEN /\ idle' = [idle EXCEPT ![b] = FALSE]
           /\ task' = [task EXCEPT ![DT(i)].pc = "idle_flag"]
-          /\ o' = o
+          /\ o' = o /\ cur' = cur
+     ELSE IF task[DT(i)].h = "stop"
+     THEN /\ idle' = idle
+          /\ task' = [task EXCEPT ![DT(i)].pc = "stop_body", ![DT(i)].tout = FALSE]
+          /\ o' = o /\ cur' = DT(i)
      ELSE /\ idle' = idle
           /\ task' = [task EXCEPT ![DT(i)].pc = "run", ![DT(i)].b = "", ![DT(i)].tout = FALSE]
           /\ o' = Obs(Line("IdleE") @@ [d |-> i, b |-> b, exc |-> "", qn |-> Len(q[b])], ev, nev, hist, q)
-  /\ UNCHANGED <<nev, ev, q, unf, shut, hist, running, semv, depth, lockq, nact, nx, xh, cur>>
+          /\ cur' = cur
+  /\ UNCHANGED <<nev, ev, q, unf, shut, hist, running, semv, depth, lockq, nact, nx, xh>>
 
 \* expect() (A.12): a temporary handler under the type's key, a future, an optional timeout; the handler is removed in every outcome
 DExpectBegin(i, b, ty, inc, exc, timed) ==
@@ -969,7 +987,7 @@ DRegister(i, hid) ==
 
 \* stop(timeout = None / 0) (A.11) and cancellation of the bus's background task
 DStopBegin(i, b) ==
-  /\ WithStop /\ DRun(i)
+  /\ WithStop /\ DRun(i) /\ ~TimedStopOn(b)
   /\ task' = [task EXCEPT ![DT(i)].bud = @ - 1, ![DT(i)].pc = "stop_go", ![DT(i)].b = b]
   /\ cur' = DT(i)
   /\ o' = Obs(Line("StopB") @@ [d |-> i, b |-> b, tmo |-> -1, running |-> running[b]], ev, nev, hist, q)
@@ -986,6 +1004,27 @@ DStopGo(i) ==
           /\ running' = [running EXCEPT ![b] = FALSE] /\ shut' = [shut EXCEPT ![b] = TRUE]
           /\ task' = [task EXCEPT ![DT(i)].pc = "stop_wait", ![RL(b)].pc = IF @ = "poll" /\ q[b] = <<>> THEN "pollx" ELSE @]   \* (a non-empty queue is still handed to the poll in flight)
           /\ UNCHANGED <<idle, o>>
+  /\ cur' = NoTask
+  /\ UNCHANGED <<nev, ev, q, unf, hist, semv, depth, lockq, nact, nx, xh>>
+\* stop(timeout > 0): a bus found running is first waited for with wait_until_idle(timeout) (whose TimeoutError never leaves it); whatever
+\* that wait found, the shutdown follows in the same stretch - without looking at the running flag again
+DStopBeginT(i, b) ==
+  /\ WithStop /\ WithIdle /\ WithTimedStop /\ DRun(i) /\ ~AnyStopOn(b)
+  /\ task' = [task EXCEPT ![DT(i)].bud = @ - 1, ![DT(i)].pc = IF running[b] THEN "idle_start" ELSE "stop_go", ![DT(i)].b = b,
+                          ![DT(i)].tout = running[b], ![DT(i)].h = IF running[b] THEN "stop" ELSE ""]
+  /\ cur' = DT(i)
+  /\ o' = Obs(Line("StopB") @@ [d |-> i, b |-> b, tmo |-> 1, running |-> running[b]], ev, nev, hist, q)
+  /\ UNCHANGED <<nev, ev, q, unf, shut, hist, running, idle, semv, depth, lockq, nact, nx, xh>>
+DStopBody(i) ==
+  /\ cur = DT(i) /\ task[DT(i)].pc = "stop_body"
+  /\ LET b == task[DT(i)].b IN
+     /\ running' = [running EXCEPT ![b] = FALSE] /\ shut' = [shut EXCEPT ![b] = TRUE]
+     /\ IF task[RL(b)].pc \in {"none", "dead"}      \* no run-loop task left to wait for
+        THEN /\ task' = [task EXCEPT ![DT(i)].pc = "run", ![DT(i)].b = "", ![DT(i)].h = ""]
+             /\ idle' = [idle EXCEPT ![b] = TRUE]
+             /\ o' = Obs(StopELine(i, b), ev, nev, hist, q)
+        ELSE /\ task' = [task EXCEPT ![DT(i)].pc = "stop_wait", ![DT(i)].h = "", ![RL(b)].pc = IF @ = "poll" /\ q[b] = <<>> THEN "pollx" ELSE @]
+             /\ UNCHANGED <<idle, o>>
   /\ cur' = NoTask
   /\ UNCHANGED <<nev, ev, q, unf, hist, semv, depth, lockq, nact, nx, xh>>
 DStopWaitEnd(i) ==    \* the run loop ended (at once) or 0.1 s passed: cancel it, drop the reference, set the idle flag, return
@@ -1026,7 +1065,7 @@ NextCore ==
         \/ HStopGo(a) \/ HStopWaitEnd(a) \/ \E b \in B : HStopBegin(a, b)
   \/ \E i \in 1..NDrv :
         \/ DAwaitEnd(i) \/ DIdleStart(i) \/ DIdleJoin(i) \/ DIdleFlag(i) \/ DIdleRecheck(i)
-        \/ DIdleTimeout(i) \/ DStopGo(i) \/ DStopWaitEnd(i) \/ DExpectGo(i) \/ DExpectEnd(i, TRUE) \/ DExpectEnd(i, FALSE)
+        \/ DIdleTimeout(i) \/ DStopGo(i) \/ DStopWaitEnd(i) \/ DStopBody(i) \/ (\E b \in B : DStopBeginT(i, b)) \/ DExpectGo(i) \/ DExpectEnd(i, TRUE) \/ DExpectEnd(i, FALSE)
         \/ \E b \in B : \E ty \in Range(Types) : \E f \in ExpFilters : DExpectBegin(i, b, ty, f, "none", FALSE) \/ \E n \in 0..2 : (WithExpect /\ DDispatchN(i, b, ty, n))
         \/ \E b \in B : DStopBegin(i, b) \/ DCancelRL(i, b)
         \/ \E h \in Range(Cfg.handlers) : DRegister(i, h.id)
